@@ -8,9 +8,9 @@
 (* schema S2 = S with foreign keywords inserted, with its observed errors).*)
 (* Clause names: "c05:...", "c06:...", "c10:..."; "~..." are skips.        *)
 (***************************************************************************)
-EXTENDS Locate, Meta, TLC
+EXTENDS RefTransparency, Meta, TLC
 
-EnvOf(r, S) == EnvN(S, r.base, IF r.uselib THEN Lib ELSE <<>>, r.pats)
+EnvOf(r, S) == EnvN(S, r.base, r.more \o (IF r.uselib THEN Lib ELSE <<>>), r.pats)
 
 ObsKw(o) == IF o.none THEN <<>> ELSE o.kw
 
@@ -81,13 +81,32 @@ C10Clauses(r, res) ==
        \cup (LET res2 == Run(r.d, EnvOf(r, r.alt.S), r.alt.S, r.I) IN
              IF SameBag(res.errs, res2.errs) /\ res.exc = res2.exc THEN {} ELSE {"~c10:spec_changed"})
 
+\* C02: the recorded errors of the schema with references, of its inlining as built by the harness (inl.S), and the
+\* specification's inlining
+RECURSIVE LocEqOO(_, _)
+RECURSIVE LocBagOO(_, _)
+LocEqOO(a, b) == a.none = b.none /\ a.kw = b.kw /\ a.ip = b.ip /\ LocBagOO(a.ctx, b.ctx)
+LocBagOO(x, y) == /\ Len(x) = Len(y)
+                  /\ \A i \in DOMAIN x : Cardinality({ j \in DOMAIN x : LocEqOO(x[j], x[i]) })
+                                         = Cardinality({ j \in DOMAIN y : LocEqOO(y[j], x[i]) })
+C02Clauses(r, res) ==
+  IF ~r.hasinl THEN {}
+  ELSE LET inl == Inline(r.d, EnvOf(r, r.S), r.S, FMAX) IN
+       IF ~inl.ok THEN {"~c02:noinline"}
+       ELSE LET si == Run(r.d, EnvFor(r.d, inl.v, r.pats), inl.v, r.I)
+                sh == Run(r.d, EnvFor(r.d, r.inl.S, r.pats), r.inl.S, r.I)
+            IN  (IF LocBag(res.errs, si.errs) THEN {} ELSE {"~c02:spec_not_transparent"})
+                \cup (IF LocBag(si.errs, sh.errs) THEN {} ELSE {"~c02:badinline"})
+                \cup (IF LocBagOO(r.errs, r.inl.errs) THEN {} ELSE {"c02:transparent"})
+
 ClausesOf(r) ==
   LET env == EnvOf(r, r.S) IN
   IF ~PatsOK(env) THEN {"~badregex"}
   ELSE LET res == Run(r.d, env, r.S, r.I) IN
        IF res.ood # {} THEN {"~ood"}
-       ELSE IF res.exc # {} THEN {"~exc"}
-       ELSE C05Clauses(r, res) \cup C06Clauses(r) \cup C10Clauses(r, res)
+       ELSE IF res.exc # {} THEN (IF r.raised = "ref" /\ "ref" \in res.exc THEN {} ELSE {"~exc"})
+       ELSE IF r.raised # "none" THEN {"c02:unexpected_" \o r.raised}
+       ELSE C05Clauses(r, res) \cup C06Clauses(r) \cup C10Clauses(r, res) \cup C02Clauses(r, res)
 
 VARIABLES l, bad
 INSTANCE TraceChain WITH Clauses <- ClausesOf
